@@ -616,6 +616,7 @@ compact_theta_sketch_alloc<A> compact_theta_sketch_alloc<A>::deserialize_v2(
   } else if (preamble_longs == 2) {
     const uint32_t num_entries = read<uint32_t>(is);
     read<uint32_t>(is); // unused
+    if (!is.good()) throw std::runtime_error("error reading from std::istream");
     std::vector<uint64_t, A> entries(num_entries, 0, allocator);
     if (num_entries == 0) {
       return compact_theta_sketch_alloc(true, true, seed_hash, theta_constants::MAX_THETA, std::move(entries));
